@@ -520,6 +520,10 @@ impl<F: Float> Harmonic<F> {
                 x.to_f64().unwrap_or(f64::NAN),
             ));
         }
+        if !x.is_finite() {
+            // NaN or +infinity
+            return Err(error::CIError::InvalidInputData);
+        }
         self.recip_space.append(F::one() / x)?;
         Ok(())
     }
@@ -688,6 +692,10 @@ impl<F: Float> Geometric<F> {
             return Err(error::CIError::NonPositiveValue(
                 x.to_f64().unwrap_or(f64::NAN),
             ));
+        }
+        if !x.is_finite() {
+            // NaN or +infinity
+            return Err(error::CIError::InvalidInputData);
         }
         self.log_space.append(x.ln())?;
         Ok(())
